@@ -22,6 +22,7 @@ import Proofs.DdsFuel
 import Proofs.DdsNorm
 import Proofs.DdsDimWitness
 import Proofs.DdsOrder
+import Proofs.DdsSame
 import Proofs.DdsSrc
 namespace Pydap.C07
 open Pydap Pydap.Dds
@@ -51,6 +52,36 @@ theorem C07_print_then_parse (d : Dataset) (hwf : WFds d) (hty : PrintableL d.ki
   obtain ⟨s, hs⟩ := printDs_ok d hty
   exact ⟨s, hs, parse_print d s hs hwf⟩
 
+/-- THE FIRST SENTENCE OF THE PROPERTY, composed and in its own words (no `normDs` in the statement): every well-formed
+    dataset whose dtypes are in the type table and whose dimension names, where given, are one per declared extent
+    prints, the text parses, and the parsed dataset `d'` is the same tree of variables — `SameDs d d'`
+    (`Proofs/DdsSame.lean`), a relation defined node by node without reference to the model's `norm*` functions:
+    same kinds, names and order (members of a Grid included), same element type (the DAP2 type both dtypes are
+    declared as: `dap2Of b'.dt = dap2Of b.dt`), shape = the shape a DDS declares (whole shape of a variable without
+    data, shape minus one record axis per enclosing Sequence of a variable holding data), dimension names = the given
+    ones (an unnamed 1-d array is declared, by pydap as by every DAP2 server, with its own name as dimension name).
+    And `d'` prints the very same text. -/
+theorem C07_same_tree (d : Dataset) (hwf : WFds d) (hty : PrintableL d.kids) (hdims : DimsFitDs d) :
+    ∃ s d', printDs d = .ok s ∧ parseDds s = .ok d' ∧ SameDs d d' ∧ printDs d' = .ok s := by
+  obtain ⟨s, hs⟩ := printDs_ok d hty
+  exact ⟨s, normDs d, hs, parse_print d s hs hwf, sameDs_norm d hdims, by rw [printDs_norm d, hs]⟩
+
+/-- `SameDs` is as strong as it reads.  It fixes the other dataset completely except for the spelling of the dtypes
+    (whose DAP2 type it fixes) and the data flag: two datasets that are both "the same tree" as `d` have equal names
+    and equal children once dtype strings and data flags are erased (`eraseL`); and it implies equal skeletons. -/
+theorem C07_same_tree_determines (d d₁ d₂ : Dataset) (h₁ : SameDs d d₁) (h₂ : SameDs d d₂) :
+    d₁.name = d₂.name ∧ eraseL d₁.kids = eraseL d₂.kids ∧ skelDs d₁ = skelDs d ∧ skelDs d₂ = skelDs d :=
+  ⟨(sameDs_unique h₁ h₂).1, (sameDs_unique h₁ h₂).2, sameDs_skel h₁, sameDs_skel h₂⟩
+
+/-- "BaseType of every DAP2 type": each of the eight DAP2 base types pydap can hold is the declared type of a numpy
+    dtype of the printer's table, and the parser's table knows its (lower-cased) name — so `PrintableL` excludes no DAP2
+    type.  (`Url` has no numpy dtype: pydap never prints it; it is reached through `C07_foreign` only.) -/
+theorem C07_types_covered :
+    ∀ ty ∈ ["Byte", "Int16", "UInt16", "Int32", "UInt32", "Float32", "Float64", "String"],
+      (∃ p ∈ Gen.NUMPY_TO_DAP2_TYPEMAP, p.2 = ty ∧ dap2Of p.1.toList = some ty.toList) ∧
+      (lookup Gen.LOWER_DAP2_TO_NUMPY_PARSER_TYPEMAP (lower ty.toList)).isSome = true :=
+  dap2_types_covered
+
 /-- What `norm` does to a base variable below `sq` sequences, with `sh` the shape the DDS declares (the whole
     shape of a variable without data, the shape without its `sq` record axes of a variable holding data) and
     dimension names (if any) one per declared extent: name kept, shape = `sh`, dimension names kept, an
@@ -61,28 +92,8 @@ theorem C07_norm_base (b : BaseV) (sq : Nat) (sh : List Int)
     (h : b.dims = [] ∨ b.dims.length = sh.length) :
     (normBase b sq).name = b.name ∧ (normBase b sq).shape = sh ∧ (normBase b sq).dt = normTy b.dt ∧
     (normBase b sq).dims = (if b.dims ≠ [] then b.dims else if sh.length = 1 then [b.name] else []) ∧
-    (normBase b sq).nodata = true := by
-  have he : effShape b sq = sh := by rw [hsh]; rfl
-  unfold normBase
-  rw [he]
-  simp only
-  by_cases h1 : b.dims ≠ []
-  · have hl : b.dims.length = sh.length := by
-      rcases h with h | h
-      · exact absurd h h1
-      · exact h
-    rw [if_pos h1, if_pos h1]
-    refine ⟨rfl, ?_, rfl, ?_, rfl⟩
-    · exact List.map_snd_zip (by omega)
-    · exact List.map_fst_zip (by omega)
-  · rw [if_neg h1, if_neg h1]
-    by_cases h2 : sh.length = 1
-    · rw [if_pos h2, if_pos h2]
-      refine ⟨rfl, rfl, rfl, ?_, rfl⟩
-      match sh, h2 with
-      | [n], _ => simp
-    · rw [if_neg h2, if_neg h2]
-      exact ⟨rfl, rfl, rfl, rfl, rfl⟩
+    (normBase b sq).nodata = true :=
+  normBase_fields b sq sh (by rw [hsh]; rfl) h
 
 /-- Text fixpoint, full statement, EVERY dataset (no hypothesis at all: any names, types, extents, nesting,
     array members of sequences with or without data): printing the tree that the printed DDS parses to gives
@@ -108,11 +119,15 @@ theorem C07_parser_builds_no_data (s : Text) (d : Dataset) (h : parseDds s = .ok
   parseDds_nodata s d h
 
 /-- The domain of the theorems above is reached from raw names: `_quote` (which `DapType.__init__` applies to
-    every name) maps every non-empty ASCII name without `/` that does not start with `dap4` to a name
-    satisfying `NameOk` — spaces, brackets, `&`, `.`, quotes … are percent-escaped into `name_regexp`'s alphabet. -/
+    every name) maps every non-empty ASCII name without `/` to a name satisfying `NameOk` — spaces, brackets, `&`, `.`,
+    quotes … are percent-escaped into `name_regexp`'s alphabet.  Names starting with `dap4` (whose first 8 characters
+    `_quote` passes through unquoted) are included as soon as those 8 characters are characters of `name_regexp`, which
+    holds for every identifier (`dap4x`, `dap4_temp`); the former blanket exclusion `raw.take 4 ≠ "dap4"` is the special
+    case where the implication is vacuous.  (`dap4 x`, with a blank among the 8, is NOT mapped into `NameOk`: see the
+    example below.) -/
 theorem C07_quoted_names (raw : Text) (hne : raw ≠ []) (h : ∀ c ∈ raw, c ≠ '/' ∧ c.toNat < 128)
-    (hd : raw.take 4 ≠ ['d', 'a', 'p', '4']) : NameOk (quoteName raw) :=
-  quoteName_nameOk raw hne h hd
+    (hd : raw.take 4 = ['d', 'a', 'p', '4'] → ∀ c ∈ raw.take 8, isNameRe c = true) : NameOk (quoteName raw) :=
+  quoteName_nameOk_any raw hne h hd
 
 /-- The fuel of the model parser is not an artefact, for ANY input text (well-formed or not): with fuel at least
     the text length the outcome (tree or error class) no longer depends on it — for the declaration loops, for
@@ -128,11 +143,31 @@ theorem C07_fuel_adequate (text : Text) (g : Nat) (h : text.length ≤ g) :
 /-- Foreign style.  Any DDS written by the second, independent printer `ftextDs`
     (`PydapModel/DdsForeign.lean`: keywords and type names in any letter case, `Url`/`Int`/`UInt` or any
     other spelling the parser table knows, every dimension anonymous `[n]` or named `[d = n]`, arbitrary
-    whitespace — spaces, tabs, newlines, none — between tokens except after a variable name) parses to
-    exactly the structure it declares (`declDs`: same kinds, names, order; parser dtype of the declared
-    type; declared extents; the names of the named dimensions). -/
+    whitespace — spaces, tabs, newlines, none — between tokens except after a variable name, and names spelled RAW:
+    any non-empty ASCII text without `;`, `[` and `/` that does not start with white space — `a.b c`, `u&v`, `my ds` —
+    not only names already made of `name_regexp` characters; a name starting with `dap4` only when its first 8
+    characters are `name_regexp` characters) parses to exactly the structure it declares (`declDs`:
+    same kinds and order; every name quoted as pydap carries names (`_quote`, the identity on `name_regexp` names);
+    parser dtype of the declared type; declared extents; the dimension names when ALL dimensions of the declaration are
+    named — a declaration naming only some of them declares its shape and no names, `fitDims`).
+    Hypotheses (`FWFds`): keywords spell their word in some letter case; type words are keys of the parser's table and
+    not `grid`/`sequence`/`structure`; gaps are white space; extents ≥ 0 and dimension names in `name_regexp`;
+    the QUOTED names of siblings are distinct. -/
 theorem C07_foreign (d : FDataset) (hwf : FWFds d) : parseDds (ftextDs d) = .ok (declDs d) :=
   foreign_parse d hwf
+
+/-- The one place where `C07_foreign` allows no white space cannot be opened: white space between a variable name and
+    the following `;` or `[` becomes part of the name (`Int32 a ;` declares `a%20` for pydap) — the name token
+    `[^;\[]+` is taken as it stands.  Texts of pydap and of the reference renderer never have it; observed by the
+    harness on foreign texts, not judged (outside the styles the property lists). -/
+theorem C07_foreign_space_after_name_refuted :
+    ¬ (∀ w : Text, (∀ c ∈ w, isSpace c = true) →
+        kidNames (parseDds ("Dataset { Int32 a".toList ++ w ++ "; } d;".toList)) = some [['a']] ∧
+        kidNames (parseDds ("Dataset { Int32 a".toList ++ w ++ "[2]; } d;".toList)) = some [['a']]) := by
+  intro h
+  have := (h [' '] (by decide)).1
+  rw [space_after_name_kept] at this
+  exact absurd this (by decide)
 
 /-- Tree identity including child ORDER, Grid members included.  `skelDs` is the tree of kinds and names of a
     dataset in the order its containers hold their members — for a Grid: the array, then the maps in the order the Grid
@@ -145,9 +180,11 @@ theorem C07_tree_order (d : Dataset) (s : Text) (hwf : WFds d) (hp : printDs d =
   ⟨normDs d, parse_print d s hp hwf, normDs_skel d⟩
 
 /-- A foreign-style DDS read by pydap and written again.  The dataset `d₁` parsed from any text of the foreign printer
-    prints (every dtype of the parser's table is one the printer knows), and that DDS `s` is a reference text in the
-    sense of the first half of the property: it parses to a dataset `d₂` with the skeleton the foreign text
-    declared (kinds, names, order of members and of a Grid's maps as DECLARED), and `d₂` prints `s` again exactly. -/
+    (raw names included: they are quoted into `name_regexp`, `RawNameOk.quoted`) prints (every dtype of the parser's
+    table is one the printer knows), and that DDS `s` is a reference text in the sense of the first half of the
+    property: it parses to a dataset `d₂` with the skeleton the foreign text declared (kinds, names, order of members
+    and of a Grid's maps as DECLARED), and `d₂` prints `s` again exactly.  Shapes and dimension names of `d₂`:
+    `C07_foreign_reprint_same`. -/
 theorem C07_foreign_reprint (d : FDataset) (hwf : FWFds d) :
     ∃ d₁ s, parseDds (ftextDs d) = .ok d₁ ∧ printDs d₁ = .ok s ∧
       ∃ d₂, parseDds s = .ok d₂ ∧ skelDs d₂ = skelDs (declDs d) ∧ printDs d₂ = .ok s := by
@@ -155,6 +192,23 @@ theorem C07_foreign_reprint (d : FDataset) (hwf : FWFds d) :
   obtain ⟨s, hs⟩ := printDs_ok (declDs d) hpr
   exact ⟨declDs d, s, foreign_parse d hwf, hs, normDs (declDs d), parse_print _ s hs hw, normDs_skel _,
     by rw [printDs_norm, hs]⟩
+
+/-- The same with the whole structure, not only the skeleton, for EVERY foreign text (full statement; until the repair of
+    round 7 it was false — see below): the dataset parsed from pydap's re-rendering is the same tree of variables as the one
+    the foreign text declared — kinds, names, order, DAP2 types, shapes, dimension names (`SameDs`).
+    The repair: `Dataset { Int32 a[x = 2][3]; } d;` (legal DAP2: one dimension named, one not) used to parse to shape
+    (2, 3) with `dims = ('x',)`; a tuple of names cannot say which axes it names, `dds()` pairs names with extents by `zip`,
+    and the dataset was printed as `Int32 a[x = 2];` — an extent lost (found by this audit as the refutation of this very
+    statement, replayed on the code, repaired in `parsers/dds.py base()`: such a declaration keeps its shape and gets no
+    dimension names, model `fitDims`).  What a foreign text declares is now always one of the property's trees
+    (`declDs_dimsFit`), so no hypothesis on the dimensions is needed. -/
+theorem C07_foreign_reprint_same (d : FDataset) (hwf : FWFds d) :
+    ∃ d₁ s d₂, parseDds (ftextDs d) = .ok d₁ ∧ printDs d₁ = .ok s ∧ parseDds s = .ok d₂ ∧ SameDs (declDs d) d₂ ∧
+      printDs d₂ = .ok s := by
+  obtain ⟨hw, hpr⟩ := declDs_wf d hwf
+  obtain ⟨s, hs⟩ := printDs_ok (declDs d) hpr
+  exact ⟨declDs d, s, normDs (declDs d), foreign_parse d hwf, hs, parse_print _ s hs hw,
+    sameDs_norm _ (declDs_dimsFit d), by rw [printDs_norm, hs]⟩
 
 /-! ### non-vacuity (samples and their well-formedness proofs: `Proofs/DdsSamples.lean`) -/
 
@@ -168,13 +222,55 @@ example : PrintableL sample.kids := by
   simp [sample, PrintableL, PrintableT, TyKnown]
   decide
 
+-- `C07_same_tree`: the sample (quoted name, named 2-d array, unnamed 1-d array, structure, sequence with members
+-- holding data, grid) is in its domain
+example : DimsFitDs sample := by
+  simp [DimsFitDs, sample, DimsFitL, DimsFitT, DimsFitB, effShape]
+
+example : ∃ s d', printDs sample = .ok s ∧ parseDds s = .ok d' ∧ SameDs sample d' ∧ printDs d' = .ok s :=
+  C07_same_tree sample sample_wf (by simp [sample, PrintableL, PrintableT, TyKnown]; decide)
+    (by simp [DimsFitDs, sample, DimsFitL, DimsFitT, DimsFitB, effShape])
+
+-- `SameDs` has teeth: order matters (two members swapped), the record axis matters (shape (5,3) kept), and the
+-- element type matters (Int16 read back as Int32)
+example : ¬ SameDs ⟨['d'], [.base ⟨['a'], ['i'], [], [], false⟩, .base ⟨['b'], ['i'], [], [], false⟩]⟩
+               ⟨['d'], [.base ⟨['b'], ['>', 'i'], [], [], true⟩, .base ⟨['a'], ['>', 'i'], [], [], true⟩]⟩ := by
+  rintro ⟨_, h⟩
+  cases h with
+  | cons h _ => cases h with
+    | base h => exact absurd h.name (by decide)
+
+example : ¬ SameDs seqArrayWitness ⟨['d'], [.seq ['Q'] [.base ⟨['i'], ['>', 'h'], [5, 3], [], true⟩]]⟩ := by
+  rintro ⟨_, h⟩
+  cases h with
+  | cons h _ => cases h with
+    | seq h => cases h with
+      | cons h _ => cases h with
+        | base h => exact absurd h.shape (by decide)
+
+example : ¬ SameDs ⟨['d'], [.base ⟨['a'], ['h'], [], [], false⟩]⟩ ⟨['d'], [.base ⟨['a'], ['>', 'i'], [], [], true⟩]⟩ := by
+  rintro ⟨_, h⟩
+  cases h with
+  | cons h _ => cases h with
+    | base h => exact absurd h.type (by decide)
+
+-- a name starting with `dap4` that is an identifier is in the domain of `C07_quoted_names`; with a blank among the
+-- first 8 characters it is not, and indeed `_quote` leaves the blank in place (outside `NameOk`)
+example : NameOk (quoteName "dap4_temp a".toList) :=
+  C07_quoted_names _ (by decide) (by decide) (by decide)
+
+example : quoteName "dap4 x".toList = "dap4 x".toList ∧ ¬ NameOk "dap4 x".toList := by
+  refine ⟨by decide, ?_⟩
+  rintro ⟨_, h⟩
+  exact absurd (h ' ' (by decide)) (by decide)
+
 -- `C07_norm_base`: a member of a sequence holding 5 records of 3 values declares `[3]`
 example : ∃ (b : BaseV) (sq : Nat) (sh : List Int), sh = (if b.nodata = true then b.shape else b.shape.drop sq)
     ∧ (b.dims = [] ∨ b.dims.length = sh.length) ∧ sq = 1 ∧ sh = [3] :=
   ⟨⟨['i'], ['h'], [5, 3], [], false⟩, 1, [3], by decide, Or.inl rfl, rfl, rfl⟩
 
-example : ∃ raw : Text, raw ≠ [] ∧ (∀ c ∈ raw, c ≠ '/' ∧ c.toNat < 128) ∧ raw.take 4 ≠ ['d', 'a', 'p', '4']
-    ∧ quoteName raw ≠ raw :=
+example : ∃ raw : Text, raw ≠ [] ∧ (∀ c ∈ raw, c ≠ '/' ∧ c.toNat < 128) ∧
+    (raw.take 4 = ['d', 'a', 'p', '4'] → ∀ c ∈ raw.take 8, isNameRe c = true) ∧ quoteName raw ≠ raw :=
   ⟨"a b[0].c&".toList, by decide, by decide, by decide, by decide⟩
 
 -- fuel: a malformed text (parse error) and more fuel than needed
@@ -237,6 +333,30 @@ example : skelDs permGridWitness ≠
 example : ∃ d₁ s, parseDds (ftextDs fsample) = .ok d₁ ∧ printDs d₁ = .ok s :=
   let ⟨d₁, s, h1, h2, _⟩ := C07_foreign_reprint fsample fsample_wf
   ⟨d₁, s, h1, h2⟩
+
+-- raw names that need quoting (`my ds`, `a.b c`, `s t`, `u&v`) are in the domain of `C07_foreign` and
+-- `C07_foreign_reprint`; the declared structure carries them quoted
+example : FWFds fsampleRaw := fsampleRaw_wf
+
+example : parseDds (ftextDs fsampleRaw) = .ok ⟨"my%20ds".toList,
+      [.base ⟨"a%2Eb%20c".toList, ">i".toList, [2], [], true⟩,
+       .struct "s%20t".toList [.base ⟨"u%26v".toList, "B".toList, [], [], true⟩]]⟩ := by
+  rw [C07_foreign fsampleRaw fsampleRaw_wf, fsampleRaw_decl]
+
+example : ∃ d₁ s, parseDds (ftextDs fsampleRaw) = .ok d₁ ∧ printDs d₁ = .ok s :=
+  let ⟨d₁, s, h1, h2, _⟩ := C07_foreign_reprint fsampleRaw fsampleRaw_wf
+  ⟨d₁, s, h1, h2⟩
+
+-- `C07_foreign_reprint_same` on the former counter-example `Dataset { Int32 a[x = 2][3]; } d;`: in the domain, declares
+-- shape (2, 3) without dimension names, and the re-rendered DDS parses to that same tree
+example : FWFds partNamedWitness := partNamedWitness_wf
+
+example : parseDds (ftextDs partNamedWitness) = .ok ⟨['d'], [.base ⟨['a'], ">i".toList, [2, 3], [], true⟩]⟩ := by
+  rw [C07_foreign _ partNamedWitness_wf, partNamedWitness_decl]
+
+example : ∃ d₁ s d₂, parseDds (ftextDs partNamedWitness) = .ok d₁ ∧ printDs d₁ = .ok s ∧ parseDds s = .ok d₂ ∧
+    SameDs (declDs partNamedWitness) d₂ ∧ printDs d₂ = .ok s :=
+  C07_foreign_reprint_same _ partNamedWitness_wf
 
 /-! ### the tie by translation: the *source text* of every line the DDS printer yields is the model's text
 
